@@ -938,7 +938,7 @@ class SubSeqObj:
 
 @register
 class EnzymaticCleave(Contract):
-    path, qualname, props = AAR, 'AminoAcidSeqRecord.enzymatic_cleave', ('C10',)
+    path, qualname, props = AAR, 'AminoAcidSeqRecord.enzymatic_cleave', ('C10', 'C05')
     assumptions = ('modular: find_all_enzymatic_cleave_sites returns the ascending site list of iter_enzymatic_cleave_sites (IterSites), sites in [1, len]',
                    'assumed: self[a:b] is the sub-record of residues a..b-1; Bio molecular_weight is a function of the sub-sequence')
 
